@@ -113,7 +113,9 @@ def propagate_function(f, ref_names):
             if impure and len(loads) != 1:
                 continue
             if builds:
-                mutated = any((isinstance(n, ast.Attribute) and isinstance(n.value, ast.Name) and n.value.id == v) or
+                READONLY = {'items', 'keys', 'values', 'get', 'copy', 'index', 'count', 'startswith', 'endswith', 'upper', 'lower', 'split', 'join', 'format', 'strip',
+                            'rstrip', 'lstrip', 'find', 'union', 'intersection', 'difference', 'issubset', 'issuperset', 'most_common', 'shape', 'sum', 'mean', 'T', 'astype'}
+                mutated = any((isinstance(n, ast.Attribute) and isinstance(n.value, ast.Name) and n.value.id == v and n.attr not in READONLY) or
                               (isinstance(n, ast.Subscript) and isinstance(n.value, ast.Name) and n.value.id == v and isinstance(n.ctx, (ast.Store, ast.Del)))
                               for n in ast.walk(f))
                 aliased = any(isinstance(n, ast.Assign) and isinstance(n.value, ast.Name) and n.value.id == v for n in ast.walk(f))
